@@ -172,6 +172,8 @@ func init() {
 				add("btree-s2-rev-late", p("calls", 3, "pool", 2, "klen", 1, "index", 1, "shards", 2, "reverse", 1, "latewrites", 1), 0)
 				add("hashmap-s3-prefix", p("calls", 2, "pool", 2, "klen", 2, "index", 3, "shards", 3, "prefix", 1), 0)
 				add("skiplist-s1-rev", p("calls", 3, "pool", 3, "klen", 1, "index", 2, "shards", 1, "reverse", 1), 0)
+				add("btree-s1-rev-prefix-klen3", p("calls", 2, "pool", 2, "klen", 3, "index", 1, "shards", 1, "reverse", 1, "prefix", 1), 0)
+				add("hashmap-s2-fwd-prefix-klen3", p("calls", 2, "pool", 2, "klen", 3, "index", 3, "shards", 2, "reverse", 0, "prefix", 1), 0)
 			} else {
 				for idx := 1; idx <= 3; idx++ {
 					for _, rev := range []int{0, 1} {
@@ -427,7 +429,7 @@ func init() {
 	register(&CheckDef{
 		ID:    "C07",
 		Title: "A crash during merge or during merge adoption never loses or resurrects data",
-		Reach: []string{"done", "crashed-in-merge", "crashed-in-restart", "crashed-during-recovery", "merge-finished"},
+		Reach: []string{"done", "crashed-in-merge", "crashed-in-restart", "crashed-during-recovery", "merge-finished", "merge-after-recovery"},
 		Jobs: func(tier string) []JobSpec {
 			var js []JobSpec
 			add := func(name string, params map[string]int64) {
@@ -439,6 +441,7 @@ func init() {
 				add("k3-nocrash2", merge(base, p("k", 3, "ops", opPut|opDelete, "dfs_lo", 60, "dfs_hi", 130, "crash2", 0)))
 				add("k1-batch", merge(base, p("k", 1, "ops", opBatch, "bmax", 2, "dfs_lo", 100, "dfs_hi", 160)))
 				add("k3-permute-3files", merge(base, p("k", 3, "ops", opPut|opDelete, "dfs_lo", 60, "dfs_hi", 66, "permute", 1, "crash2", 0)))
+				add("k2-crashed-merge-then-merge", merge(base, p("k", 2, "ops", opPut, "dfs_lo", 60, "dfs_hi", 100, "crash2", 0, "aftermerge", 1, "tailops", opMerge)))
 			} else {
 				add("k3-rot", merge(base, p("k", 3, "ops", opPut|opDelete, "dfs_lo", 60, "dfs_hi", 130)))
 				add("k2-batch", merge(base, p("k", 2, "ops", opPut|opBatch, "bmax", 2, "dfs_lo", 60, "dfs_hi", 160)))
@@ -519,6 +522,7 @@ func init() {
 				add("k2", merge(base, p("k", 2, "ops", opPut|opDelete)))
 				add("k2-rot-bigval", merge(base, p("k", 2, "ops", opPut, "vlens", 3, "vbig", 30, "dfs_lo", 60, "dfs_hi", 90)))
 				add("k2-merge-hint", merge(base, p("k", 2, "ops", opPut|opDelete, "vlens", 1, "merge", 1)))
+				add("k2-merge-hint-multichunk", merge(base, p("k", 2, "ops", opPut, "vlens", 3, "vbig", 30, "merge", 1)))
 				add("k1-batch", merge(base, p("k", 1, "ops", opBatch, "bmax", 2, "vlens", 1)))
 			} else {
 				add("k3", merge(base, p("k", 3, "ops", opPut|opDelete)))
@@ -680,6 +684,10 @@ func init() {
 				add("list-restart-k4", p("k", 4, "keys", 1, "cmds", cLPush|cLPop|cDel|cRestart))
 				add("zset-btree-k3", p("k", 3, "keys", 1, "cmds", cZAdd|cZScore|cDel|cRestart, "index", 1))
 				add("set-type-k3", p("k", 3, "keys", 1, "cmds", cSAdd|cSRem|cSIsMember|cDel|cType|cSet))
+				// delete + re-create across a restart (a re-created key must start empty)
+				add("hash-del-restart-k4", p("k", 4, "keys", 1, "cmds", cHSet|cHGet|cDel|cRestart))
+				add("set-del-restart-k4", p("k", 4, "keys", 1, "cmds", cSAdd|cSIsMember|cDel|cRestart))
+				add("zset-del-restart-k4", p("k", 4, "keys", 1, "cmds", cZAdd|cZScore|cDel|cRestart, "nscores", 1))
 			} else {
 				add("all-commands-1key-k4", p("k", 4, "keys", 1, "cmds", 65535))
 				add("all-commands-2keys-k3", p("k", 3, "keys", 2, "cmds", 65535))
